@@ -42,7 +42,8 @@ static void *arena_alloc(size_t n, const void *pc)
     return p;
 }
 
-void *__wrap_malloc(size_t n) { return arena_alloc(n, __builtin_return_address(0)); }
+/* malloc'ed memory is filled with a pattern: code that relies on malloc returning zeroes (a malloc0 turned into malloc) shows up as a wrong value */
+void *__wrap_malloc(size_t n) { void *p = arena_alloc(n, __builtin_return_address(0)); if (p && arena && mem_is_arena(p)) __real_memset(p, 0xA5, n); return p; }
 void *__wrap_calloc(size_t a, size_t b) { void *p = arena_alloc(a * b, __builtin_return_address(0)); if (p) __real_memset(p, 0, a * b); return p; }
 void __wrap_free(void *p)
 {
